@@ -1,14 +1,99 @@
 (* C26 -- Temporary row ids resolve consistently within a bundle.
-   Statements only; proofs are in Proofs/TempIds_proofs.v; the model is Model/TempIds.v (hand-written, compared
-   with the real engine and with ActionSummary on every run by harness/props/c26.py).  Ids allocated by an add
+   Statements only; proofs are in Proofs/TempIds_proofs.v; the model is Model/TempIds.v.  Its deciding definitions (the new-rows map,
+   translation, reference-value preparation and rejection, the row-id preparation of updates and removals) are
+   proved equal to the code translated from /repo on every run (C26_code_*_is_model below); the bundle interpreter
+   around them is hand-written and compared with the real engine by harness/props/c26.py.  Ids allocated by an add
    are Model/RowIds.alloc, which Props/C27.v proves equal to the loops translated from useractions.py.
    "The bundle leaves no trace" after a rejection is the engine's rollback (C04): [run_bundle] returns PyErr and
    the check observes on the implementation that every table is unchanged. *)
 From Coq Require Import ZArith List Bool Lia.
 Import ListNotations.
-Require Import Grist.Lib.PyPrelude Grist.Lib.PyMonad Grist.Model.RowIds Grist.Model.TempIds
-               Grist.Proofs.TempIds_proofs.
+Require Import Grist.Lib.PyPrelude Grist.Lib.PyMonad Grist.Lib.PyTmp Grist.Model.RowIds Grist.Model.TempIds
+               GristGen.TempIds_gen Grist.Proofs.TempIds_proofs Grist.Proofs.TempIds_bridge.
 Open Scope Z_scope.
+
+(* ---- tie: the code translated from /repo on every run (GristGen.TempIds_gen, harness/tmp2v.py) IS the model -- *)
+
+Theorem C26_code_translate_is_model : forall summ t ids,
+  translate_new_row_ids summ t ids = translate (summ t) ids.
+Proof. exact gen_translate_is_translate. Qed.
+
+Theorem C26_code_update_map_is_model : forall summ t temps finals,
+  update_new_rows_map summ t temps finals = set_map summ t (map_update (summ t) temps finals).
+Proof. exact gen_update_is_map_update. Qed.
+
+Theorem C26_code_ref_prepare_is_model : forall summ self_t tgt vals,
+  ref_prepare_new_values summ self_t tgt (map cell_of_ref vals) = lift_cells cell_of_ref (prepare_ref (summ tgt) vals).
+Proof. exact gen_ref_prepare. Qed.
+
+Theorem C26_code_reflist_prepare_is_model : forall summ self_t tgt vals,
+  reflist_prepare_new_values summ self_t tgt (map cell_of_list vals)
+  = lift_cells cell_of_list (prepare_reflist (summ tgt) vals).
+Proof. exact gen_reflist_prepare. Qed.
+
+(* doBulkRemoveRecord: the doc action and the reference clean-up both get the TRANSLATED ids (step, ARemove) *)
+Theorem C26_code_remove_is_model : forall summ t ids,
+  remove_row_ids summ t ids = (translate (summ t) ids, py_set (translate (summ t) ids)).
+Proof. exact gen_remove_is_step. Qed.
+
+(* doBulkUpdateRecord: translate, then keep the last occurrence of every row (step, AUpdate) *)
+Theorem C26_code_update_is_model : forall (A : Type) summ t ids (cols : list (Z * list A)),
+  Forall (fun c => length (snd c) = length ids) cols ->
+  let ids0 := translate (summ t) ids in
+  update_row_ids summ t ids cols = (keep_last ids0 ids0, map (fun c => (fst c, keep_last ids0 (snd c))) cols).
+Proof. exact gen_update_is_step. Qed.
+
+(* ---- the property on the generated code ----------------------------------------------------------------- *)
+
+Theorem C26_code_translate_after_update : forall summ t temps finals i a f,
+  nth_error temps i = Some (Some a) -> a < 0 -> nth_error finals i = Some f ->
+  (forall j, (i < j)%nat -> nth_error temps j <> Some (Some a)) ->
+  translate_new_row_ids (update_new_rows_map summ t temps finals) t [a] = [f].
+Proof. exact code_translate_after_update. Qed.
+
+Theorem C26_code_other_tables_untouched : forall summ t temps finals t' ids, t' <> t ->
+  translate_new_row_ids (update_new_rows_map summ t temps finals) t' ids = translate_new_row_ids summ t' ids.
+Proof. exact code_other_tables_untouched. Qed.
+
+Theorem C26_code_ref_values_translated : forall summ self_t tgt vals cs, wf_tmap (summ tgt) ->
+  ref_prepare_new_values summ self_t tgt (map cell_of_ref vals) = PyOk cs ->
+  exists vs, cs = map cell_of_ref vs /\ Forall2 (ref_resolved (summ tgt)) vals vs.
+Proof. exact code_ref_values_translated. Qed.
+
+Theorem C26_code_reflist_values_translated : forall summ self_t tgt vals cs, wf_tmap (summ tgt) ->
+  reflist_prepare_new_values summ self_t tgt (map cell_of_list vals) = PyOk cs ->
+  exists vs, cs = map cell_of_list vs /\ Forall2 (list_resolved (summ tgt)) vals vs.
+Proof. exact code_reflist_values_translated. Qed.
+
+Theorem C26_code_unresolved_negative_rejected : forall summ self_t tgt vals z,
+  In (RInt z) vals -> z < 0 -> lookup z (summ tgt) = None ->
+  ref_prepare_new_values summ self_t tgt (map cell_of_ref vals) = PyErr PyValueError.
+Proof. exact code_unresolved_negative_rejected. Qed.
+
+Theorem C26_code_unresolved_negative_rejected_list : forall summ self_t tgt vals l z,
+  In (LList l) vals -> In z l -> z < 0 -> lookup z (summ tgt) = None ->
+  reflist_prepare_new_values summ self_t tgt (map cell_of_list vals) = PyErr PyValueError.
+Proof. exact code_unresolved_negative_rejected_list. Qed.
+
+Theorem C26_code_remove_uses_allocated_rows : forall summ t ids, wf_tmap (summ t) ->
+  remove_row_ids summ t ids = remove_row_ids summ t (translate_new_row_ids summ t ids).
+Proof. exact code_remove_uses_allocated_rows. Qed.
+
+Theorem C26_code_update_uses_allocated_rows : forall (A : Type) summ t ids (cols : list (Z * list A)),
+  wf_tmap (summ t) -> Forall (fun c => length (snd c) = length ids) cols ->
+  update_row_ids summ t ids cols = update_row_ids summ t (translate_new_row_ids summ t ids) cols.
+Proof. exact code_update_uses_allocated_rows. Qed.
+
+(* non-vacuity of the tie: the generated code on concrete arguments *)
+Example C26_code_nonvacuous :
+  let summ := update_new_rows_map (fun _ => []) 1 [Some (-1); None; Some (-1); Some 7] [4; 5; 6; 7] in
+  translate_new_row_ids summ 1 [-1; -2; 7] = [6; -2; 7] /\
+  remove_row_ids summ 1 [-1; 6; 3] = ([6; 6; 3], [6; 3]) /\
+  update_row_ids summ 1 [-1; 6; 3] [(0, [10; 20; 30])] = ([6; 3], [(0, [20; 30])]) /\
+  ref_prepare_new_values summ 0 1 [CInt (-1); COther 1; CInt 2] = PyOk [CInt 6; COther 1; CInt 2] /\
+  reflist_prepare_new_values summ 0 1 [CList [2; -1]; CNone] = PyOk [CList [2; 6]; CNone] /\
+  reflist_prepare_new_values summ 0 1 [CList [2; -9]] = PyErr PyValueError.
+Proof. repeat split; vm_compute; reflexivity. Qed.
 
 (* ---- the mapping (ActionSummary.update_new_rows_map / translate_new_row_ids) ------------------------- *)
 
